@@ -61,4 +61,19 @@ theorem C01_args_total (c : Content) (hn : WFnames c) (hs : Sortable c.available
     ∃ cache env, createCache c = .ok cache ∧ getArgsEnv c cache vars t = .ok env :=
   getArgs_total c hn hs vars hv t
 
+/-- the hypotheses of `C01_rhs_is_Nv` hold on a non-trivial model (evaluated in `Props/C01Args.lean`:
+    `callRhs exNVc 1 [2, 1, 9] = ok [-9, 22, 0]`) -/
+def exNVc : Content :=
+  { vars := [("x", .plain 2), ("y", .plain 1), ("z", .plain 9)], pars := [("p", .plain 3)],
+    derived := [("d", ⟨["x", "time"], fun v => v.getD 0 0 + v.getD 1 0⟩)],
+    rxns := [("r", ⟨⟨["d", "p"], fun v => v.getD 0 0 * v.getD 1 0⟩,
+      [("x", .num (-1)), ("y", .dyn ⟨["x"], fun v => v.getD 0 0⟩)]⟩)],
+    surs := [("s", ⟨["x"], ["o1", "f1"], fun v => [v.getD 0 0, 2 * v.getD 0 0],
+      [("f1", [("y", .num 1)])]⟩)] }
+
+example : WFnames exNVc :=
+  ⟨by decide +kernel, by intro kv h vs; simp [exNVc] at h; subst h; rfl⟩
+example : (omKeys exNVc.allStoich).Nodup := by decide +kernel
+example : (callRhs exNVc 1 [2, 1, 9]).toOption = some [-9, 22, 0] := by decide +kernel
+
 end Mxl.C01
